@@ -208,8 +208,7 @@ def api_dump(api):
                 dflt = None
                 if getattr(f, 'has_default', False):
                     v = f.default
-                    dflt = ['tag', v.union_data_type.namespace.name, v.union_data_type.name, v.tag_name] \
-                        if isinstance(v, TagRef) else ['lit']
+                    dflt = ['tag', _ty(v.union_data_type), v.tag_name] if isinstance(v, TagRef) else ['lit']
                 fields.append({'name': f.name, 'ty': _ty(f.data_type), 'dflt': dflt, 'caller': f.omitted_caller or None,
                                'redact': f.redactor is not None})
             is_struct = isinstance(dt, Struct)
@@ -272,6 +271,18 @@ class _Reducer:
             return
         if isinstance(node, ast.Call):
             f = node.func
+            if isinstance(f, ast.Name) and f.id == 'TagRef':
+                # a printed `TagRef(Union('ns.U', [UnionField(...), ...]), 'tag')`: the model tracks the three
+                # constructor names every such text starts with (a spec may itself define a type called TagRef)
+                out.append((None, 'TagRef', None))
+                if node.args and isinstance(node.args[0], ast.Call) and isinstance(node.args[0].func, ast.Name):
+                    inner = node.args[0]
+                    out.append((None, inner.func.id, None))
+                    if len(inner.args) > 1 and isinstance(inner.args[1], ast.List):
+                        for e in inner.args[1].elts:
+                            if isinstance(e, ast.Call) and isinstance(e.func, ast.Name):
+                                out.append((None, e.func.id, None))
+                return
             ch = _chain(f) if isinstance(f, (ast.Name, ast.Attribute)) else None
             if ch is not None:
                 root, attrs = ch
@@ -449,7 +460,9 @@ def classify(pk, stage, exc, text):
     if stage == 'import':
         m = _NAME_RE.search(text)
         missing = m.group(1) if m else None
-        if missing == 'TagRef':
+        from stone.ir.data_types import TagRef
+        if missing in ('TagRef', 'Union', 'UnionField') and any(
+                isinstance(v, TagRef) for ns in api.namespaces.values() for r in ns.routes for v in (r.attrs or {}).values()):
             return 'tagref-route-attr'
         if missing == 'datetime':
             return 'timestamp-route-attr'
